@@ -754,7 +754,120 @@ def run(ctx):
             R.extra["driver"] = "unavailable (Lean build failed) - oracles only"
     finally:
         env.close()
+    company_phase(ctx, R)
     return R.to_json(exhaustive=False)
+
+
+# ---- what a scenario saves does not depend on the company it keeps (process-global state) ------------------------------
+COMPANY_TVS = (2.4, None)        # None = the trigger version of the version's base file
+
+
+def company_worker(version, args):
+    """one fresh process: scenario B (and, in mode 'company', scenarios A next to it, with a DIFFERENT trigger version and
+    their own armour/attack effects, messages, units) - returns per case the digest of B's saved body and the stored
+    quantities of its effects. The parent compares mode 'solo' with mode 'company'."""
+    import random
+    from harness import bases, codec_common as cc
+    common.lib_setup()
+    from AoE2ScenarioParser.scenarios.aoe2_de_scenario import AoE2DEScenario
+    company = args["mode"] == "company"
+    base = bases.base_file(version, args.get("driver"))
+    tmp = tempfile.mkdtemp(prefix="c09c_")
+    out = {}
+
+    def load(tv):
+        with cc.quiet():
+            s = AoE2DEScenario.from_file(base)
+        t = s.sections["Triggers"]
+        if float(t.trigger_version) == 3.5:
+            return None                        # a gate of the structure sits exactly there: leave the version alone
+        if tv is not None:
+            t.trigger_version = tv
+        return s
+
+    def populate(s, rng, k):
+        tm = s.trigger_manager
+        for i in range(k):
+            t = tm.add_trigger(f"t{i}")
+            cls, q = rng.choice([(5, 3), (1, 200), (31, 7), (3, 255), (0, 1)])
+            kind = rng.randrange(3)
+            if kind == 0:
+                t.new_effect.change_object_attack(object_list_unit_id=4, source_player=1, operation=1,
+                                                  armour_attack_class=cls, armour_attack_quantity=q)
+            elif kind == 1:
+                t.new_effect.change_object_armor(object_list_unit_id=4, source_player=2, operation=1,
+                                                 armour_attack_class=cls, armour_attack_quantity=q)
+            else:
+                t.new_effect.send_chat(source_player=1, message=f"m{i}")
+            t.new_condition.timer(timer=3 + i)
+        for p in (1, 2):
+            s.unit_manager.add_unit(player=p, unit_const=4, x=1.5, y=1.5)
+
+    def save(s, name):
+        d = tempfile.mkdtemp(dir=tmp)
+        fn = os.path.join(d, "c09company.aoe2scenario")
+        with cc.quiet():
+            s.write_to_file(fn)
+        raw = open(fn, "rb").read()
+        shutil.rmtree(d, ignore_errors=True)
+        hl = len(s.sections["FileHeader"].get_data_as_bytes())
+        body = zlib.decompress(raw[hl:], -zlib.MAX_WBITS)
+        stored = [[int(e.quantity) for e in t.effect_data] for t in s.sections["Triggers"].trigger_data]
+        return {"sha": hashlib.sha256(body[4:]).hexdigest(), "stored_effect_quantities": stored}
+
+    try:
+        case = 0
+        for rnd in range(args["rounds"]):
+            for tva, tvb in ((2.4, None), (None, 2.4), (2.4, 2.4), (None, None)):
+                rng = random.Random(f"C09c:{args['seed']}:{version}:{rnd}:{tvb}")
+                key = f"r{rnd}:A={tva}:B={tvb}"
+                with cc.quiet():
+                    a = load(tva) if company else None
+                    if a is not None:
+                        populate(a, random.Random(f"A{rnd}"), 3)
+                        [e.armour_attack_quantity for t in a.trigger_manager.triggers for e in t.effects]
+                        save(a, "a1")
+                    b = load(tvb)
+                    if b is None:
+                        continue
+                    populate(b, rng, 4)
+                    if a is not None:
+                        a.trigger_manager.triggers[0].new_effect.change_object_attack(
+                            object_list_unit_id=4, source_player=3, operation=1, armour_attack_class=2, armour_attack_quantity=9)
+                        save(a, "a2")
+                    out[key] = save(b, "b")
+                    out[key]["readback"] = [[(e.armour_attack_class, e.armour_attack_quantity) for e in t.effects]
+                                            for t in b.trigger_manager.triggers]
+                case += 1
+        return {"cases": out}
+    finally:
+        shutil.rmtree(tmp, ignore_errors=True)
+
+
+def company_phase(ctx, R):
+    from harness import bases, vworker
+    vs = [v for v in bases.versions() if float(v) <= 1.51]
+    pick = vs if not ctx.quick else sorted({vs[0], vs[len(vs) // 2], vs[-1]})
+    args = {"seed": ctx.seed, "driver": ctx.driver_path, "rounds": ctx.budget(1, 4)}
+    solo = vworker.run_versions("h_c09", "company_worker", pick, {**args, "mode": "solo"})
+    comp = vworker.run_versions("h_c09", "company_worker", pick, {**args, "mode": "company"})
+    n = 0
+    for v in pick:
+        for res in (solo[v], comp[v]):
+            if "worker_error" in res:
+                raise RuntimeError(f"C09 company worker {v}: {res['worker_error']}")
+        for key, s in solo[v]["cases"].items():
+            c = comp[v]["cases"].get(key)
+            n += 1
+            R.case(key=f"company:{v}:{key}", nontrivial=True, tags=["company"])
+            if c is None or c["sha"] != s["sha"]:
+                R.violation({"clause": "save-frame", "what": "company", "version": v},
+                            f"version {v}, case {key}: the body scenario B saves differs when another scenario of the same version "
+                            f"(other trigger version) was used in the process: stored effect quantities solo "
+                            f"{s['stored_effect_quantities']} vs in company {c and c['stored_effect_quantities']}",
+                            {"company": True, "version": v, "case": key, "solo": s, "company_result": c})
+    R.extra["company_cases"] = n
+    R.extra["company_versions"] = pick
 
 
 def structured_cases():
